@@ -517,7 +517,14 @@ def scenario_callback_error(ctx, res, rng, idx):
             seen.append(x)
             if x[1] == failat:
                 raise ValueError("E5")
-        ch.setcallback(cb)
+        try:
+            ch.setcallback(cb)
+        except ValueError:
+            # the failing item was already queued: setcallback itself raises the callback's exception to its caller
+            # (the hand-over drain runs in the caller's thread) - not the scenario this oracle is about
+            result["drain-failure"] = True
+            sibling.close()
+            return
         if dropped:
             del ch
         else:
@@ -555,7 +562,7 @@ def scenario_callback_error(ctx, res, rng, idx):
     finally:
         netthreads.Ctl2.body = orig_body
     res.count(("cberr", idx, repr(params)))
-    if not sc.error:
+    if not sc.error and not result.get("drain-failure"):
         if [x[1] for x in seen] != list(range(failat + 1)):
             problems.append(f"callback saw {[x[1] for x in seen]}, expected items 0..{failat} once each")
         if not dropped:
